@@ -649,3 +649,238 @@ def self_check_expression_truthiness() -> bool:
     r = _R()
     expression_node_truthiness(r, "fixture", [f])
     return r.hits == 1
+
+
+# ------------------------------------------------------------------------------------ test one variable, use its sibling
+def _call_shape(v: ast.AST) -> Tuple[str, ...]:
+    return tuple(call_name(c) for c in ast.walk(v) if isinstance(c, ast.Call))
+
+
+def stale_guard(rep: Report, rule: str, funcs: Iterable[FuncInfo]) -> int:
+    """Copy-paste guard: `w = f(…)` immediately followed by `if test(v): … w …` where `v` is an earlier local of the
+    same block built by the same calls as `w`, the test does not read `w` and the guarded body does not read `v` — the
+    guard decides about the previous sibling's value, not about the one the body uses. Returns the number of
+    (assignment, if) pairs examined."""
+    n = 0
+    for f in funcs:
+        for owner in walk_no_nested(f.node):
+            for fld in ("body", "orelse", "finalbody"):
+                blk = getattr(owner, fld, None)
+                if not (isinstance(blk, list) and blk and all(isinstance(x, ast.stmt) for x in blk)):
+                    continue
+                assigned: Dict[str, Tuple[int, ast.AST]] = {}
+                for i, st in enumerate(blk):
+                    if isinstance(st, ast.If) and i > 0:
+                        prev = blk[i - 1]
+                        if isinstance(prev, ast.Assign) and len(prev.targets) == 1 and isinstance(prev.targets[0], ast.Name):
+                            w = prev.targets[0].id
+                            n += 1
+                            t_names = {x.id for x in ast.walk(st.test) if isinstance(x, ast.Name)}
+                            b_names = {x.id for s in st.body for x in ast.walk(s) if isinstance(x, ast.Name) and isinstance(x.ctx, ast.Load)}
+                            if w in b_names and w not in t_names and _call_shape(prev.value):
+                                for v in sorted(t_names - b_names):
+                                    if v in assigned and assigned[v][0] < i - 1 and _call_shape(assigned[v][1]) == _call_shape(prev.value):
+                                        rep.bad(rule, f"the guard tests `{v}` but guards the use of `{w}`", f.loc(st), construct=f"{w} = …; if {norm(st.test)[:50]}: … {w} …", detail=f"`{w}` is computed right before the test by the same calls as `{v}`, the test reads only `{v}` and the body only `{w}`: the condition was copied from the sibling block without renaming its variable, so `{w}` is used (or dropped) on the strength of `{v}`", function=f.qualname)
+                    if isinstance(st, ast.Assign) and len(st.targets) == 1 and isinstance(st.targets[0], ast.Name):
+                        assigned[st.targets[0].id] = (i, st.value)
+    return n
+
+
+# ------------------------------------------------------------------------------------ companion fields
+_MUTATORS = {"append", "add", "update", "setdefault", "pop", "remove", "extend", "clear", "discard", "insert", "popitem"}
+
+
+def _field_writes(fn: ast.AST, recv: str) -> Dict[str, List[ast.AST]]:
+    out: Dict[str, List[ast.AST]] = {}
+    for a in walk_no_nested(fn):
+        if isinstance(a, (ast.Assign, ast.AugAssign, ast.AnnAssign)):
+            for t in (a.targets if isinstance(a, ast.Assign) else [a.target]):
+                for x in ast.walk(t):
+                    if isinstance(x, ast.Attribute) and isinstance(x.value, ast.Name) and x.value.id == recv and isinstance(x.ctx, ast.Store):
+                        out.setdefault(x.attr, []).append(a)
+                    if isinstance(x, ast.Subscript) and isinstance(x.value, ast.Attribute) and isinstance(x.value.value, ast.Name) and x.value.value.id == recv:
+                        out.setdefault(x.value.attr, []).append(a)
+        elif isinstance(a, ast.Call) and isinstance(a.func, ast.Attribute) and a.func.attr in _MUTATORS and isinstance(a.func.value, ast.Attribute) and isinstance(a.func.value.value, ast.Name) and a.func.value.value.id == recv:
+            out.setdefault(a.func.value.attr, []).append(a)
+        elif isinstance(a, ast.Delete):
+            for t in a.targets:
+                if isinstance(t, ast.Subscript) and isinstance(t.value, ast.Attribute) and isinstance(t.value.value, ast.Name) and t.value.value.id == recv:
+                    out.setdefault(t.value.attr, []).append(a)
+    return out
+
+
+_NOT_MUTATORS = ("__init__", "__setstate__", "clone", "__deepcopy__", "_clone_to")
+
+
+def companion_pairs(ci) -> Dict[Tuple[str, str], List[str]]:
+    """(f, g) such that at least two ordinary methods of the class write field f and every one of them also writes
+    field g: g is bookkeeping kept in step with f (an index, a count, a derived set)."""
+    per: Dict[str, Set[str]] = {}
+    for name, fi in ci.methods.items():
+        if name in _NOT_MUTATORS:
+            continue
+        w = _field_writes(fi.node, "self")
+        if w:
+            per[name] = set(w)
+    fields = set().union(*per.values()) if per else set()
+    out: Dict[Tuple[str, str], List[str]] = {}
+    for f in fields:
+        mf = sorted(k for k, v in per.items() if f in v)
+        if len(mf) < 2:
+            continue
+        for g in fields:
+            if g != f and all(g in per[k] for k in mf):
+                out[(f, g)] = mf
+    return out
+
+
+def companion_fields(rep: Report, rule: str, idx: Index, classes) -> int:
+    """Wherever a method of the class or of a subclass (its `clone` included, writing through the new instance)
+    writes f, it writes the companion g too: a copy that carries the list but not its index, or a new mutator that
+    forgets the bookkeeping, leaves the two out of step. Returns the number of (class, f, g) pairs."""
+    n = 0
+    for ci in classes:
+        pairs = companion_pairs(ci)
+        if not pairs:
+            continue
+        family = [ci] + [s for s in idx.subclasses(ci)]
+        for (f, g), mf in sorted(pairs.items()):
+            n += 1
+            for cj in family:
+                for name, fi in cj.methods.items():
+                    if name in ("__init__", "__setstate__"):
+                        continue
+                    recvs = {x.value.id for x in ast.walk(fi.node) if isinstance(x, ast.Attribute) and isinstance(x.value, ast.Name)}
+                    for r in sorted(recvs):
+                        w = _field_writes(fi.node, r)
+                        if f in w and g not in w:
+                            rep.bad(rule, f"{cj.name}.{name} writes {r}.{f} and keeps {r}.{g} in step", fi.loc(w[f][0]), construct=f"{r}.{f} written, {r}.{g} not ({ci.name}: {', '.join(mf[:3])} write both)", detail=f"`{g}` is bookkeeping for `{f}` (every method of {ci.name} that changes one changes the other); here only `{f}` is set, so the object answers from a stale `{g}` — e.g. a clone that has the elements but an empty index, whose lookups then disagree with its contents", function=fi.qualname)
+    return n
+
+
+# ------------------------------------------------------------------------------------ parallel lists
+def _zipped_params(fn: ast.AST) -> List[Tuple[str, str]]:
+    params = [a.arg for a in fn.args.args]
+    out = []
+    for c in walk_no_nested(fn):
+        if isinstance(c, ast.Call) and call_name(c) == "zip" and len(c.args) >= 2 and all(isinstance(a, ast.Name) for a in c.args[:2]):
+            a, b = c.args[0].id, c.args[1].id
+            if a in params and b in params:
+                out.append((a, b))
+    return out
+
+
+def parallel_lists(rep: Report, rule: str, idx: Index, funcs: Iterable[FuncInfo]) -> int:
+    """Two lists that are consumed position by position (`zip(a, b)`, here or in a callee that zips the two
+    parameters they are passed for — possibly through `for x in product(*b)`, whose tuples are as long as b) must grow
+    together: in a loop that appends to both, no iteration may append to one and not to the other. Returns the number
+    of parallel pairs found."""
+    by_name: Dict[str, List[FuncInfo]] = {}
+    for g in idx.all_funcs():
+        by_name.setdefault(g.node.name, []).append(g)
+    n = 0
+    for f in funcs:
+        pairs: Set[Tuple[str, str]] = set()
+        prod_src: Dict[str, str] = {}
+        def product_of(e):
+            for c in ast.walk(e):
+                if isinstance(c, ast.Call) and call_name(c) == "product" and len(c.args) == 1 and isinstance(c.args[0], ast.Starred) and isinstance(c.args[0].value, ast.Name):
+                    return c.args[0].value.id
+            return None
+
+        assigned_products = {a.targets[0].id: product_of(a.value) for a in walk_no_nested(f.node) if isinstance(a, ast.Assign) and len(a.targets) == 1 and isinstance(a.targets[0], ast.Name) and product_of(a.value)}
+        for l in walk_no_nested(f.node):
+            if isinstance(l, ast.For) and isinstance(l.target, ast.Name):
+                src = product_of(l.iter) if not isinstance(l.iter, ast.Name) else assigned_products.get(l.iter.id)
+                if src:
+                    prod_src[l.target.id] = src
+        for c in walk_no_nested(f.node):
+            if not isinstance(c, ast.Call):
+                continue
+            if call_name(c) == "zip" and len(c.args) >= 2 and all(isinstance(a, ast.Name) for a in c.args[:2]):
+                pairs.add((c.args[0].id, c.args[1].id))
+                continue
+            for g in by_name.get(call_name(c) or "", []):
+                zp = _zipped_params(g.node)
+                if not zp:
+                    continue
+                gparams = [a.arg for a in g.node.args.args]
+                off = 1 if gparams[:1] == ["self"] and isinstance(c.func, ast.Attribute) else 0
+                amap = {}
+                for i, a in enumerate(c.args):
+                    if i + off < len(gparams) and isinstance(a, ast.Name):
+                        amap[gparams[i + off]] = a.id
+                for k in c.keywords:
+                    if k.arg and isinstance(k.value, ast.Name):
+                        amap[k.arg] = k.value.id
+                for pa, pb in zp:
+                    if pa in amap and pb in amap:
+                        pairs.add((prod_src.get(amap[pa], amap[pa]), prod_src.get(amap[pb], amap[pb])))
+        if not pairs:
+            continue
+        cfg = cfg_of(f)
+        for a, b in sorted(pairs):
+            if a == b:
+                continue
+            apps = {nm: [nd for nd, c in cfg.nodes_with_call("append") if isinstance(c.func, ast.Attribute) and norm(c.func.value) == nm] if hasattr(cfg, "nodes_with_call") else [] for nm in (a, b)}
+            if not apps[a] and not apps[b]:
+                from .rules import cfg_nodes_with_call
+
+                apps = {nm: [nd for nd, c in cfg_nodes_with_call(cfg, "append") if isinstance(c.func, ast.Attribute) and norm(c.func.value) == nm] for nm in (a, b)}
+            if not apps[a] or not apps[b]:
+                continue
+            for l in [x for x in cfg.nodes if x.kind == "for"]:
+                body = {nd for nd in cfg.nodes if nd.ast is not None and any(y is nd.ast for st in l.owner.body for y in ast.walk(st))}
+                ia, ib = [x for x in apps[a] if x in body], [x for x in apps[b] if x in body]
+                if not ia or not ib:
+                    continue
+                n += 1
+                first = [s_ for s_ in cfg.g.successors(l) if s_ in body]
+                bad = None
+                for one, other, nm_one, nm_other in ((ia, ib, a, b), (ib, ia, b, a)):
+                    for x in one:
+                        reach_in = any(s_ is x or cfg.path_avoiding(s_, x, set(other)) is not None for s_ in first if s_ not in other)
+                        reach_out = cfg.path_avoiding(x, l, set(other)) is not None
+                        if reach_in and reach_out and x not in other:
+                            bad = (nm_one, nm_other, x)
+                            break
+                    if bad:
+                        break
+                rep.check(bad is None, rule, f"`{a}` and `{b}` are consumed position by position and grow together", f.loc(l.owner), construct=f"for {norm(l.owner.target)} in {norm(l.owner.iter)[:40]}: {a}.append / {b}.append " + ("on the same iterations" if bad is None else f"— an iteration can append to {bad[0]} and not to {bad[1]}"), detail="" if bad is None else f"the two lists are zipped later; once one of them skips an element every later pair is shifted by one position and the last element is dropped", function=f.qualname)
+    return n
+
+
+# ------------------------------------------------------------------------------------ str.strip with a prefix / suffix
+def strip_charset_misuse(rep: Report, rule: str, funcs: Iterable[FuncInfo]) -> int:
+    """`s.lstrip(prefix)` / `s.rstrip(suffix)` / `s.strip(word)` remove *characters of the set*, not the prefix: with a
+    variable or a word as argument they also eat leading characters of what follows (`'pack.amount'.lstrip('pack.')`
+    is `'mount'`). Reported when the argument is not a literal, or is a literal word (two or more alphanumerics).
+    Returns the number of strip calls with an argument examined."""
+    n = 0
+    for f in funcs:
+        for c in walk_no_nested(f.node):
+            if not (isinstance(c, ast.Call) and isinstance(c.func, ast.Attribute) and c.func.attr in ("lstrip", "rstrip", "strip") and len(c.args) == 1 and not c.keywords):
+                continue
+            n += 1
+            a = c.args[0]
+            if isinstance(a, ast.Constant) and isinstance(a.value, str) and sum(ch.isalnum() for ch in a.value) < 2:
+                rep.ok(rule, "strip with a character set", f.loc(c), construct=norm(c)[:80], function=f.qualname)
+                continue
+            rep.bad(rule, f"`{c.func.attr}` is given a prefix / suffix, but strips a character set", f.loc(c), construct=norm(c)[:90], detail="str.lstrip/rstrip/strip treat the argument as a set of characters: besides the intended prefix they remove every following character that happens to be in that set, so names are truncated depending on their spelling — slice by len(prefix) or use removeprefix / removesuffix", function=f.qualname)
+    return n
+
+
+def self_check_strip() -> bool:
+    import types
+
+    class _R:
+        def __init__(self):
+            self.b = self.o = 0
+        def bad(self, *a, **k):
+            self.b += 1
+        def ok(self, *a, **k):
+            self.o += 1
+    fn = ast.parse("def f(name, prefix):\n    a = name.lstrip(prefix)\n    b = name.strip(' \\n')\n    return a, b\n").body[0]
+    r = _R()
+    strip_charset_misuse(r, "fixture", [types.SimpleNamespace(node=fn, qualname="fixture.f", loc=lambda n=None: "fixture:1")])
+    return (r.b, r.o) == (1, 1)
